@@ -154,8 +154,100 @@ DEEP = {
     'DEEP_lp2': _deep(lp_extra='v: str;'),
 }
 FAMILY.update(DEEP)
-# groups of members that are (in addition) migrated among themselves only
-FOCUS_GROUPS = [list(DEEP)]
+# field group: one base schema and variants that each set exactly one field
+# of one object; base <-> variant covers SET and RESET of every field
+_FB = ('abstract type P {{ name: str {pn} }} '
+       'scalar type S extending int64 {{ constraint min_value(0) {sc} }} '
+       'type A extending P {{ {an} s: S {as_}; n: int64 {nf}; '
+       '{aidx} {acon} {apol} }} '
+       'type B {{ {bl} }} '
+       '{fn} {gl} {al}')
+
+
+def _field(**kw):
+    d = dict(pn='', sc='', an='', as_='', nf='', aidx='index on (.n);',
+             acon='constraint exclusive on (.n);',
+             apol='access policy pol allow all using (true);',
+             bl='multi a: A { w: int64; }',
+             fn='function f(x: int64) -> int64 using (x + 1);',
+             gl='global g -> str;', al='alias AA := A { u := .n };')
+    d.update(kw)
+    return D(_FB.format(**d))
+
+
+FIELDS = {
+    'FLD_0': _field(),
+    'FLD_ptr_default': _field(nf='{ default := 1 }'),
+    'FLD_ptr_readonly': _field(nf='{ readonly := true }'),
+    'FLD_ptr_anno': _field(nf='{ annotation title := "t" }'),
+    'FLD_ptr_con_err': _field(
+        nf='{ constraint max_value(9) { errmessage := "big" } }'),
+    'FLD_ptr_con': _field(nf='{ constraint max_value(9) }'),
+    'FLD_inh_default': _field(
+        an='overloaded name: str { default := "a" };'),
+    'FLD_inh_required': _field(an='overloaded required name: str;'),
+    'FLD_parent_default': _field(pn='{ default := "p" }'),
+    'FLD_scalar_con_err': _field(sc='{ errmessage := "neg" }'),
+    'FLD_scalar_anno': D(_FB.format(
+        pn='', sc='', an='', as_='', nf='', aidx='index on (.n);',
+        acon='constraint exclusive on (.n);',
+        apol='access policy pol allow all using (true);',
+        bl='multi a: A { w: int64; }',
+        fn='function f(x: int64) -> int64 using (x + 1);',
+        gl='global g -> str;', al='alias AA := A { u := .n };').replace(
+            'constraint min_value(0)  }',
+            'constraint min_value(0); annotation title := "s" }')),
+    'FLD_idx_except': _field(aidx='index on (.n) except (.n < 0);'),
+    'FLD_idx_anno': _field(aidx='index on (.n) { annotation title := "i" };'),
+    'FLD_con_except': _field(
+        acon='constraint exclusive on (.n) except (.n < 0);'),
+    'FLD_con_err': _field(
+        acon='constraint exclusive on (.n) { errmessage := "dup" };'),
+    'FLD_con_delegated': _field(
+        acon='delegated constraint exclusive on (.n);'),
+    'FLD_pol_cond': _field(
+        apol='access policy pol allow all using ((.n ?? 0) > 0);'),
+    'FLD_pol_action': _field(
+        apol='access policy pol deny all using (true);'),
+    'FLD_pol_kinds': _field(
+        apol='access policy pol allow select, insert using (true);'),
+    'FLD_pol_err': _field(
+        apol='access policy pol allow all using (true) '
+             '{ errmessage := "no" };'),
+    'FLD_link_otd': _field(
+        bl='multi a: A { w: int64; on target delete allow; }'),
+    'FLD_link_osd': _field(
+        bl='multi a: A { w: int64; on source delete delete target; }'),
+    'FLD_lprop_default': _field(
+        bl='multi a: A { w: int64 { default := 1 } }'),
+    'FLD_lprop_anno': _field(
+        bl='multi a: A { w: int64 { annotation title := "w" } }'),
+    'FLD_link_readonly': _field(
+        bl='multi a: A { w: int64; readonly := true; }'),
+    'FLD_fn_volatility': _field(
+        fn='function f(x: int64) -> int64 { volatility := "Stable"; '
+           'using (x + 1) };'),
+    'FLD_fn_anno': _field(
+        fn='function f(x: int64) -> int64 { annotation title := "f"; '
+           'using (x + 1) };'),
+    'FLD_fn_body': _field(
+        fn='function f(x: int64) -> int64 using (x + 2);'),
+    'FLD_fn_default_arg': _field(
+        fn='function f(x: int64 = 1) -> int64 using (x + 1);'),
+    'FLD_gl_default': _field(gl='global g -> str { default := "d" };'),
+    'FLD_gl_required': _field(
+        gl='required global g -> str { default := "d" };'),
+    'FLD_gl_anno': _field(gl='global g -> str { annotation title := "g" };'),
+    'FLD_al_expr': _field(al='alias AA := A { u := .n + 1 };'),
+    'FLD_al_anno': _field(
+        al='alias AA { using (A { u := .n }); annotation title := "a" };'),
+    'FLD_type_anno': _field(an='annotation title := "A";'),
+    'FLD_as_required': _field(as_='{ constraint max_value(5) }'),
+}
+FAMILY.update(FIELDS)
+# groups of members that are (in addition) migrated among themselves only:
+# (members, all_pairs) - all ordered pairs, or only first <-> each other
+FOCUS_GROUPS = [(list(DEEP), True), (list(FIELDS), False)]
 
 # members whose second module shadows std names used (unqualified in the
 # source) by the first one: the described text must stay self-contained
